@@ -38,6 +38,8 @@ func runC19(c *Ctx) {
 	c.Doc("R19.3", "lock removal only on the !IsRunning edge; live holder ⇒ error; lock written only after repoIsAvailable succeeded; Close removes the lock on success")
 	c.Doc("R19.4", "the lock file is opened with O_CREATE|O_EXCL (no truncating Create after a separate existence test)")
 	checkWebUIAndIsRunning(c)
+	checkLockContentParsable(c)
+	checkInterruptCleaners(c)
 	isLoad := func(n string) bool {
 		return n == "commands/execenv.LoadBackend" || n == "commands/execenv.LoadBackendEnsureUser"
 	}
@@ -618,6 +620,155 @@ func allInstrs(fn *ssa.Function) []ssa.Instruction {
 	var out []ssa.Instruction
 	for _, b := range fn.Blocks {
 		out = append(out, b.Instrs...)
+	}
+	return out
+}
+
+// R19.8: the lock is released when the command is interrupted. LoadBackend registers a cleaner that
+// closes the backend; on SIGINT/SIGTERM util/interrupt runs the cleaners and exits. A cleaner that was
+// cancelled (the password prompt registers and cancels one) must be skipped, not end the run.
+func checkInterruptCleaners(c *Ctx) {
+	w := c.W
+	c.Doc("R19.8", "util/interrupt.clean calls every cleaner that is not disabled: its loop over the registered cleaners has no exit but exhaustion and the call of the cleaner is conditional on nothing but the disabled flag; the signal goroutine calls clean() before os.Exit; execenv.LoadBackend registers a cleaner that closes the backend")
+	fn := w.Func("util/interrupt", "clean")
+	reg := w.Func("util/interrupt", "RegisterCleaner")
+	if fn == nil || reg == nil {
+		c.Undecided("R19.8", "anchor:interrupt.clean/RegisterCleaner", "util/interrupt", "not found")
+		return
+	}
+	c.seeFn(funcName(fn))
+	c.seeFn(funcName(reg))
+	pos := w.FnPos(fn)
+	// the call of the cleaner's function
+	var call ssa.CallInstruction
+	for _, b := range fn.Blocks {
+		for _, ins := range b.Instrs {
+			if ci, ok := ins.(ssa.CallInstruction); ok && !ci.Common().IsInvoke() && ci.Common().StaticCallee() == nil {
+				if _, isB := ci.Common().Value.(*ssa.Builtin); isB {
+					continue
+				}
+				if hasField(ci.Common().Value, "f") {
+					call = ci
+				}
+			}
+		}
+	}
+	if call == nil {
+		c.Check(false, "R19.8", "interrupt.clean:calls-every-enabled-cleaner", pos, "", "no call of a registered cleaner found in clean()")
+		return
+	}
+	c.Sites++
+	hdr := enclosingLoopHeader(call.Block())
+	bad := ""
+	if hdr == nil {
+		bad = "the cleaner is not called inside a loop over the registered cleaners"
+	} else {
+		for _, b := range fn.Blocks {
+			if b == hdr || !inLoop(b, hdr) {
+				continue
+			}
+			for _, s := range b.Succs {
+				if !inLoop(s, hdr) {
+					bad = "the loop over the cleaners is left at " + w.InstrPos(firstPosInstr(s)) + " before every cleaner was visited: the cleaners registered earlier (the one that closes the backend and removes the lock) never run"
+				}
+			}
+		}
+		if bad == "" {
+			for _, cc := range controlConds(call.Block(), hdr) {
+				if !inLoop(cc.If.Block(), hdr) || cc.If.Block() == hdr {
+					continue
+				}
+				if !hasField(cc.If.Cond, "disabled") || cc.Edge != 1 {
+					bad = "a cleaner is called under a condition other than 'not disabled' (" + w.InstrPos(cc.If) + ")"
+				}
+			}
+		}
+		// ranges over the global list
+		okList := false
+		for _, ins := range hdr.Instrs {
+			_ = ins
+		}
+		for _, o := range origins(call.Common().Value) {
+			if o.Kind == "field" {
+				for _, o2 := range origins(o.Val) {
+					if o2.Kind == "global" && o2.Name == "cleaners" {
+						okList = true
+					}
+				}
+			}
+		}
+		if bad == "" && !okList {
+			bad = "the cleaners called are not the elements of the registered list"
+		}
+	}
+	c.Check(bad == "", "R19.8", "interrupt.clean:calls-every-enabled-cleaner", pos, "every registered cleaner that is not disabled is called; the loop ends by exhaustion only", bad)
+	// the signal goroutine
+	okSig := false
+	for _, an := range reg.AnonFuncs {
+		var cl, ex ssa.Instruction
+		for _, k := range Calls(an) {
+			if k.Name == "util/interrupt.clean" {
+				cl = k.Instr
+			}
+			if k.Name == "os.Exit" {
+				ex = k.Instr
+			}
+		}
+		if cl != nil && ex != nil && instrDominates(cl, ex) {
+			okSig = true
+		}
+	}
+	c.Check(okSig, "R19.8", "interrupt.RegisterCleaner:clean-before-exit", w.FnPos(reg), "the signal goroutine calls clean() before os.Exit", "the signal goroutine does not run the cleaners before exiting")
+	// LoadBackend registers the closer
+	okReg := false
+	if lb := w.Func("commands/execenv", "LoadBackend"); lb != nil {
+		c.seeFn(funcName(lb))
+		for _, k := range CallsDeep(lb) {
+			if k.Name != "util/interrupt.RegisterCleaner" || len(k.Args()) != 1 {
+				continue
+			}
+			c.Sites++
+			for _, f := range funcValuesOf(k.Args()[0], 0) {
+				for _, k2 := range CallsDeep(f) {
+					if strings.HasSuffix(k2.Name, ".Close") && strings.Contains(k2.Name, "RepoCache") {
+						okReg = true
+					}
+				}
+			}
+		}
+	}
+	c.Check(okReg, "R19.8", "execenv.LoadBackend:registers-the-closer", "commands/execenv", "a cleaner closing the backend is registered", "LoadBackend registers no interrupt cleaner that closes the backend")
+}
+
+
+// funcValuesOf: the functions a func-typed value may be: closures, named functions, and what a
+// statically called helper returns.
+func funcValuesOf(v ssa.Value, depth int) []*ssa.Function {
+	var out []*ssa.Function
+	for _, o := range origins(v) {
+		switch o.Kind {
+		case "closure":
+			if f, ok := o.Val.(*ssa.MakeClosure).Fn.(*ssa.Function); ok {
+				out = append(out, f)
+			}
+		case "func":
+			if f, ok := o.Val.(*ssa.Function); ok {
+				out = append(out, f)
+			}
+		case "call":
+			if depth >= 2 {
+				continue
+			}
+			if cv, ok := o.Val.(*ssa.Call); ok {
+				if callee := cv.Common().StaticCallee(); callee != nil && len(callee.Blocks) > 0 {
+					for _, r := range Returns(callee) {
+						if o.Idx < len(r.Results) {
+							out = append(out, funcValuesOf(ReturnResult(r, o.Idx), depth+1)...)
+						}
+					}
+				}
+			}
+		}
 	}
 	return out
 }
